@@ -415,6 +415,22 @@ def io_LimitReader (src : List UInt8) (n : Int) : List UInt8 := src.take n.toNat
 def io_ReadAllLimit (rd : List UInt8) (n : Int) : List UInt8 × Option Err × List UInt8 :=
   (rd.take n.toNat, none, rd.drop n.toNat)
 
+def io_ErrShortWrite : Option Err := some ⟨"io.ErrShortWrite", 0, []⟩
+
+/-- `(*bytes.Buffer).WriteTo(w)` on a buffer that is its unread bytes: nothing is written when it is
+    empty; otherwise ONE `w.Write` of all of it; a count above what was offered panics; an error is
+    passed on with the buffer advanced by the count; a short count without error is
+    io.ErrShortWrite; on success the buffer is reset. (count, error, buffer, destination) -/
+def buffer_WriteTo {δ : Type} (write : δ → List UInt8 → M (Int × Option Err × δ)) (buf : List UInt8) (d : δ) :
+    M (Int × Option Err × List UInt8 × δ) :=
+  if buf.isEmpty then .ok (0, none, [], d)
+  else do
+    let r ← write d buf
+    if r.1 > len buf || r.1 < 0 then throw (.panic 1000)
+    if r.2.1 != none then return (r.1, r.2.1, buf.drop r.1.toNat, r.2.2)
+    if r.1 != len buf then return (r.1, io_ErrShortWrite, buf.drop r.1.toNat, r.2.2)
+    return (r.1, none, [], r.2.2)
+
 /-- `unicode.IsSpace` -/
 def unicode_IsSpace (r : Int) : Bool :=
   r == 9 || r == 10 || r == 11 || r == 12 || r == 13 || r == 32 || r == 0x85 || r == 0xA0 || r == 0x1680 ||
